@@ -30,6 +30,8 @@ def gen_value(kind, sizes, rng):
     return rng.rand(dim(args[0]), dim(args[1])) + 0.1
   if name == 'pvec':
     return rng.rand(dim(args[0])) + 0.1
+  if name == 'ivec':
+    return rng.randint(0, dim(args[0]), size=dim(args[0])).astype(float)
   if name == 'bvec':
     return rng.rand(dim(args[0])) > 0.5
   if name == 'pm1':
@@ -94,8 +96,13 @@ def evaluate(t, env):
     return vs[0] / vs[1] if k == z3.Z3_OP_DIV else vs[0] // vs[1]
   if k == z3.Z3_OP_UMINUS:
     return -vs[0]
-  if k in (z3.Z3_OP_TO_REAL, z3.Z3_OP_TO_INT):
+  if k == z3.Z3_OP_TO_REAL:
     return vs[0]
+  if k == z3.Z3_OP_TO_INT:
+    import math
+    return int(math.floor(vs[0]))
+  if k == z3.Z3_OP_IS_INT:
+    return float(vs[0]).is_integer()
   if k == z3.Z3_OP_EQ:
     a, b = vs
     if isinstance(a, np.ndarray) or isinstance(b, np.ndarray):
